@@ -39,6 +39,7 @@ type Block struct {
 	Votes   []Vote
 	Evid    []Evid
 	Txs     []Tx
+	Gov     [][]Msg // message lists of the proposals x/gov's EndBlocker executed in this block (filled in from the run)
 	Restart bool // implementation only: restart the node before this block
 	Absent  []int // script mode only: keys to mark absent; votes are then filled in from the tracked sets
 }
@@ -57,7 +58,7 @@ func (m Msg) count() int {
 }
 
 func writeMsg(w io.Writer, m Msg) {
-	if len(m.Sub) > 0 || m.Kind == "EXEC" || m.Kind == "GROUPPROP" || m.Kind == "GOVPROP" {
+	if len(m.Sub) > 0 || m.Kind == "EXEC" || m.Kind == "GROUPPROP" || m.Kind == "GOVPROP" || m.Kind == "GOVSUB" {
 		fmt.Fprintf(w, "M %s %d\n", m.Kind, len(m.Sub))
 		for _, s := range m.Sub {
 			writeMsg(w, s)
@@ -76,13 +77,18 @@ func WriteGenesis(w io.Writer, g Genesis) {
 	for _, v := range g.Vals {
 		fmt.Fprintf(w, "GVAL %d %d %d\n", v.Op, v.Key, v.Tokens)
 	}
+	if g.GovAdmin {
+		fmt.Fprintf(w, "ADMIN gov\n")
+	}
 }
 
 func WriteBlock(w io.Writer, b Block) {
 	if b.Restart {
 		fmt.Fprintf(w, "RESTART\n")
 	}
-	if len(b.Evid) > 0 {
+	if len(b.Gov) > 0 {
+		fmt.Fprintf(w, "BLOCK %d %d %d %d %d\n", b.DtNs, len(b.Votes), len(b.Txs), len(b.Evid), len(b.Gov))
+	} else if len(b.Evid) > 0 {
 		fmt.Fprintf(w, "BLOCK %d %d %d %d\n", b.DtNs, len(b.Votes), len(b.Txs), len(b.Evid))
 	} else {
 		fmt.Fprintf(w, "BLOCK %d %d %d\n", b.DtNs, len(b.Votes), len(b.Txs))
@@ -100,6 +106,12 @@ func WriteBlock(w io.Writer, b Block) {
 	for _, t := range b.Txs {
 		fmt.Fprintf(w, "TX %d %d\n", t.Signer, len(t.Msgs))
 		for _, m := range t.Msgs {
+			writeMsg(w, m)
+		}
+	}
+	for _, g := range b.Gov {
+		fmt.Fprintf(w, "GOV %d\n", len(g))
+		for _, m := range g {
 			writeMsg(w, m)
 		}
 	}
@@ -157,7 +169,7 @@ func readMsg(r *lineReader) (Msg, error) {
 	}
 	m := Msg{Kind: f[1]}
 	switch m.Kind {
-	case "EXEC", "GROUPPROP", "GOVPROP":
+	case "EXEC", "GROUPPROP", "GOVPROP", "GOVSUB":
 		n := atoi(f[2])
 		for i := 0; i < n; i++ {
 			s, err := readMsg(r)
@@ -199,6 +211,8 @@ func ReadHistories(rd io.Reader) ([]History, error) {
 				}
 				cur.G.Vals = append(cur.G.Vals, GVal{Op: atoi(g[1]), Key: atoi(g[2]), Tokens: atoi64(g[3])})
 			}
+		case "ADMIN":
+			cur.G.GovAdmin = len(f) > 1 && f[1] == "gov"
 		case "RESTART":
 			restart = true
 		case "ABSENT":
@@ -241,6 +255,23 @@ func ReadHistories(rd io.Reader) ([]History, error) {
 					tx.Msgs = append(tx.Msgs, m)
 				}
 				b.Txs = append(b.Txs, tx)
+			}
+			if len(f) > 5 {
+				for i := 0; i < atoi(f[5]); i++ {
+					gl, err := r.next()
+					if err != nil || gl[0] != "GOV" {
+						return nil, fmt.Errorf("line %d: expected GOV", r.line)
+					}
+					var ms []Msg
+					for j := 0; j < atoi(gl[1]); j++ {
+						m, err := readMsg(r)
+						if err != nil {
+							return nil, err
+						}
+						ms = append(ms, m)
+					}
+					b.Gov = append(b.Gov, ms)
+				}
 			}
 			e, err := r.next()
 			if err != nil || e[0] != "ENDBLOCK" {
